@@ -282,7 +282,7 @@ def explore_step(task):
         queries += harness.path_queries(path, prefix="%s/p%d/" % (tag, npaths), group_prefix="step/",
                                         extra_info=info)
     return {"paths": npaths, "queries": queries, "part": "step/" + op, "explore_s": time.time() - t0,
-            "inconclusive": (["%s: %d unknown feasibility answers" % (tag, ex.n_unknown)] if ex.n_unknown else [])}
+            "undecided_feasibility": ex.n_unknown}
 
 
 # ------------------------------------------------------------------------------------------------ layers 2 and 3
@@ -442,7 +442,7 @@ def explore_history(task):
                                    path.hyp(), z3.And(*conds), info=last_info, group="hist/" + variant)
         queries.append(q)
     return {"paths": npaths, "queries": queries, "part": "hist/" + variant, "explore_s": time.time() - t0,
-            "inconclusive": (["%s: %d unknown feasibility answers" % (tag, ex.n_unknown)] if ex.n_unknown else [])}
+            "undecided_feasibility": ex.n_unknown}
 
 
 # ------------------------------------------------------------------------------------------------ native side
